@@ -729,8 +729,7 @@ def align(case, toks):
         if ENTITY.match(d["name"] or "") and not d["dropped"]:
             occ.setdefault(d["name"], []).append(dict(role="D", id=i, off=d["off"], d=d))
     for u in tr["uses"]:
-        if u["name"] and ENTITY.match(u["name"]) and u["target"] in tr["decls"] and not u["dropped"] and \
-                not (u.get("nonodr") and u["via"] == "member" and "mf" not in case.get("mode", "cur")):
+        if u["name"] and ENTITY.match(u["name"]) and u["target"] in tr["decls"] and not u["dropped"]:
             occ.setdefault(u["name"], []).append(dict(role="U", id=u["target"], off=u["off"], u=u))
     bystr = {}
     for t in toks:
@@ -1013,8 +1012,10 @@ def mutate_dump(r, dump):
 # ---------------------------------------------------------------------------------------------------------
 # the check
 # ---------------------------------------------------------------------------------------------------------
-KNOWN_KEYS = ("loc-line-inherited", "param-of-redeclared-function", "use-inside-sizeof", "declarator-dropped", "member-nonodr-flag",
-              "crash-interleaved-diagnostics")
+KNOWN_KEYS = ("loc-line-inherited", "param-of-redeclared-function", "declarator-dropped", "not-analysed-interleaved-diagnostics")
+# fixed in /repo (4904769, 62b103f, 683485c): "use-inside-sizeof", "member-nonodr-flag", "crash-interleaved-diagnostics" — their witnesses are
+# still replayed on every run and must stay clean; the old behaviour coming back is a VIOLATION (and breaks the correspondence: the
+# repaired behaviour is the only model)
 
 
 def interleave(r, dump, text="1 warning generated.\n"):
@@ -1034,8 +1035,8 @@ def load_witnesses():
     return json.load(open(p))["witnesses"] if os.path.exists(p) else []
 
 
-def dump_op(c, mode):
-    return "dump %s %s %s %s" % (c["lang"], core.hx(src_name(c["lang"])), core.hx(c["dump"]), mode)
+def dump_op(c):
+    return "dump %s %s %s" % (c["lang"], core.hx(src_name(c["lang"])), core.hx(c["dump"]))
 
 
 def evaluate(c, line):
@@ -1052,45 +1053,14 @@ def evaluate(c, line):
     viol += [(k, t) for k, t, _ in bad if k != "loc-col"]
     stats["col_mismatch"] = sum(1 for k, _, _ in bad if k == "loc-col")
     # MemberExpr printed with a trailing flag: the importer takes the address for the member name (token "0x…") and links nothing
-    nonodr = [u for u in c["truth"]["uses"] if u.get("nonodr") and u["via"] == "member"] if "mf" not in c.get("mode", "cur") else []
+    # (fixed by 62b103f; seen again = VIOLATION) MemberExpr printed with a trailing flag: member spelt with the address, unlinked
+    nonodr = [u for u in c["truth"]["uses"] if u.get("nonodr") and u["via"] == "member"]
     if nonodr and any(re.match(r"^0x[0-9a-f]+$", t["str"]) for t in toks):
         viol.append(("member-nonodr-flag", "member use inside an unevaluated operand (source %d:%d): the token is spelt with the address and is unlinked" %
                      linecol(c["text"], nonodr[0]["off"])))
     for name, want, got in unaligned:
-        if any(u["name"] == name for u in nonodr):
-            continue
         viol.append(("occurrence-count", "entity %r: %d source occurrences, %d imported tokens" % (name, want, got)))
     return viol, stats, "ok"
-
-
-def probe(exe):
-    """import the corpus witnesses with the real importer; which of the proposed repairs does the tree already have?"""
-    wit = load_witnesses()
-    wcases = [dict(lang=w["lang"], text=w["text"], layout="witness", stress=True, features=[], wkey=w["key"], name=w["name"]) for w in wit]
-    clang_all(wcases)
-    badw = [c["name"] for c in wcases if not c.get("clang_ok")]
-    wcases = [c for c in wcases if c.get("clang_ok")]
-    wout = run_robust(exe, [dump_op(c, "cur") for c in wcases]) if wcases else []
-    sizeof_clean = member_clean = False
-    for c, o in zip(wcases, wout):
-        toks = parse_dump_line(o)
-        if toks is None:
-            continue
-        if c["wkey"] == "use-inside-sizeof":
-            ins = [t for t in toks if ENTITY.match(t["str"]) and in_sizeof(toks, t["idx"])]
-            sizeof_clean = bool(ins) and all(t["varDef"] is not None and t["varId"] != 0 for t in ins)
-        if c["wkey"] == "member-nonodr-flag":
-            # the repaired MemberExpr branch spells the member by its name (two tokens `fm1`: declaration and use)
-            member_clean = not any(re.match(r"^0x[0-9a-f]+$", t["str"]) for t in toks) and sum(1 for t in toks if t["str"] == "fm1") == 2
-    # proposed/C35-children-bounds.diff: the captured interleaved output ends in getChild's InternalError instead of a crash
-    bounds_clean = False
-    ipath = os.path.join(core.VERIF, "corpus", "C35", "interleaved.json")
-    if os.path.exists(ipath):
-        w = json.load(open(ipath))
-        o = run_robust(exe, [dump_op(dict(lang=w["lang"], dump=w["dump"]), "cur")])[0]
-        bounds_clean = o.startswith("throw getChild")
-    mode = "+".join((["sf"] if sizeof_clean else []) + (["mf"] if member_clean else []) + (["bc"] if bounds_clean else [])) or "cur"
-    return mode, wcases, wout, badw, sizeof_clean, member_clean
 
 
 def run(ctx, res):
@@ -1105,28 +1075,27 @@ def run(ctx, res):
     T["prove+build"] = round(time.time() - t0, 1)
     res.extra["phase_seconds"] = T
 
-    # ---- known-finding witnesses first; they also tell which of the proposed repairs the tree already has -----------------------
-    mode, wcases, wout, badw, sizeof_clean, member_clean = probe(exe)
+    # ---- the witnesses of the findings (known and fixed) first ------------------------------------------------------------------
+    wit = load_witnesses()
+    wcases = [dict(lang=w["lang"], text=w["text"], layout="witness", stress=True, features=[], wkey=w["key"], name=w["name"]) for w in wit]
+    clang_all(wcases)
+    badw = [c["name"] for c in wcases if not c.get("clang_ok")]
     res.oblig("corpus:witnesses-accepted-by-clang", not badw, "machinery", "clang-14 rejects the witness programs %s" % badw)
-    seen_keys = {}
+    wcases = [c for c in wcases if c.get("clang_ok")]
+    wout = run_robust(exe, [dump_op(c) for c in wcases]) if wcases else []
     for c, o in zip(wcases, wout):
-        c["mode"] = mode
         for u in (c.get("truth") or {}).get("uses", []):
             u.setdefault("nonodr", False)
         viol, stats, note = evaluate(c, o)
         hit = [v for v in viol if v[0] == c["wkey"]]
         res.case("witness|" + c["name"], True, dict(tie="witness", name=c["name"], key=c["wkey"], reproduces=bool(hit)))
-        if hit:
-            seen_keys[c["wkey"]] = True
+        res.count("witness-%s:%s" % ("reproduces" if hit else "clean", c["wkey"]))
+        if hit:      # a known finding prints KNOWN-FINDING; a fixed one has no entry of kind "finding" any more and is a VIOLATION
             res.violation("%s: %s" % (c["name"], hit[0][1]), dict(kind="program", lang=c["lang"], text=c["text"], key=c["wkey"], witness=c["name"]),
                           concrete=True, key=c["wkey"])
         for k, t in viol:
             if k != c["wkey"] and k not in KNOWN_KEYS:
                 res.violation("witness %s: %s" % (c["name"], t), dict(kind="program", lang=c["lang"], text=c["text"], key=k), concrete=True, key=k)
-    res.extra["behaviour_of_the_tree"] = dict(setTypes_sizeof="repaired" if sizeof_clean else "current (clears links inside sizeof)",
-                                              MemberExpr_flag="repaired" if member_clean else "current (last two fields)",
-                                              children_bounds="repaired (getChild)" if "bc" in mode else "current (unchecked children[N])",
-                                              model_variant=mode)
 
     # ---- programs ------------------------------------------------------------------------------------------------------
     plan = [("c", "safe", False, 40 if thorough else 8), ("c", "free", False, 40 if thorough else 6), ("cpp", "safe", False, 40 if thorough else 7),
@@ -1140,22 +1109,20 @@ def run(ctx, res):
     res.oblig("generator:programs-accepted-by-clang", not bad_clang, "machinery",
               "" if not bad_clang else "%d generated programs were rejected by clang-14; first:\n%s" % (len(bad_clang), bad_clang[0]["text"][:600]))
     cases = [c for c in cases if c.get("clang_ok")]
-    for c in cases:
-        c["mode"] = mode
     res.extra["clang_runs_cached"] = sum(1 for c in cases if c.get("cached"))
     for c in cases:
         for u in c["truth"]["uses"]:
             u.setdefault("nonodr", False)
 
     # ---- C-import ------------------------------------------------------------------------------------------------------
-    ops = [dump_op(c, mode) for c in cases]
+    ops = [dump_op(c) for c in cases]
     muts = []
     for c in rng.sample(cases, min(len(cases), 40 if thorough else 8)):
         m = dict(c)
         m["dump"] = mutate_dump(rng, c["dump"])
         m["mut"] = True
         muts.append(m)
-    ops_m = [dump_op(c, mode) for c in muts]
+    ops_m = [dump_op(c) for c in muts]
     impl = run_robust(exe, ops + ops_m)
     rc, model, err = core.run_lines(drv, [], ops + ops_m, timeout=1800)
     if len(model) != len(ops) + len(ops_m):
@@ -1188,7 +1155,7 @@ def run(ctx, res):
 
     T["clang+import"] = round(time.time() - t0, 1)
     # ---- the hypotheses of the theorems on the real inputs (evidence: how much of the real input the theorems speak about) ----
-    eops = ["events %s %s %s %s" % (c["lang"], core.hx(src_name(c["lang"])), core.hx(c["dump"]), mode) for c in cases]
+    eops = ["events %s %s %s" % (c["lang"], core.hx(src_name(c["lang"])), core.hx(c["dump"])) for c in cases]
     rc, eo, err = core.run_lines(drv, [], eops, timeout=900)
     hyp = dict(dumps=0, setters_only=0, addrs_unique=0, toks_fresh=0, objs_fresh=0, events=0, refs=0, refs_before_decl=0, all_hypotheses=0)
     for o in eo:
@@ -1207,26 +1174,37 @@ def run(ctx, res):
               hyp["setters_only"] == hyp["dumps"], "hypotheses",
               "" if hyp["dumps"] else "no dump was imported by the model: %s" % eo[:2])
 
-    # ---- F35g: diagnostics interleaved into the dump (`2>&1` in CppCheck::checkClang): a crash is the finding ------------------
+    # ---- F35g: diagnostics interleaved into the dump (`2>&1` in CppCheck::checkClang) ------------------------------------------------
+    # since 683485c a node that lost a child ends in getChild's InternalError (a crash is a VIOLATION again); what remains is that a
+    # program clang accepts with a warning is not analysed: the import of the clean dump succeeds, the import of what checkClang reads throws
     ipath = os.path.join(core.VERIF, "corpus", "C35", "interleaved.json")
     icases = []
     if os.path.exists(ipath):
         w = json.load(open(ipath))
-        icases.append(dict(lang=w["lang"], text=w["text"], dump=w["dump"], name=w["name"]))
+        wc = clang_case(dict(lang=w["lang"], text=w["text"]))
+        icases.append(dict(lang=w["lang"], text=w["text"], dump=w["dump"], clean=wc.get("dump", ""), name=w["name"]))
     for c in rng.sample(cases, min(len(cases), 60 if thorough else 10)):
-        icases.append(dict(lang=c["lang"], text=c["text"], dump=interleave(rng, c["dump"]), name="synthetic"))
-    iops = [dump_op(c, mode) for c in icases]
+        icases.append(dict(lang=c["lang"], text=c["text"], dump=interleave(rng, c["dump"]), clean=c["dump"], name="synthetic"))
+    iops = [dump_op(c) for c in icases] + [dump_op(dict(lang=c["lang"], dump=c["clean"])) for c in icases]
     ii = run_robust(exe, iops)
-    rc, im_, err = core.run_lines(drv, [], iops, timeout=900)
-    for c, a, b in zip(icases, ii, im_ if len(im_) == len(iops) else [""] * len(iops)):
-        res.count("interleaved:" + ("crash" if a.startswith("CRASH") else a.split(" ")[0] + " " + " ".join(a.split(" ")[1:2]) if not a.startswith("ok") else "ok"))
-        if a.startswith("CRASH"):
-            # the model must have seen the out-of-range access coming, otherwise it is a crash of another kind
-            key = "crash-interleaved-diagnostics" if b.startswith("ub ") else "crash"
-            res.violation("%s: the importer crashes on clang output with a diagnostic line written into the AST text (%s); model: %s" %
-                          (c["name"], a[:40], b[:80]), dict(kind="dump", lang=c["lang"], text=c["text"], dump=c["dump"], key=key), concrete=True, key=key)
-        elif b and not b.startswith(("ub ", "unsupported")) and a != b:
-            res.oblig("correspondence:import-interleaved", False, "correspondence", "impl=%s model=%s" % (a[:200], b[:200]))
+    rc, im_, err = core.run_lines(drv, [], iops[:len(icases)], timeout=900)
+    cmp_o, cmp_a, cmp_b = [], [], []
+    for k, c in enumerate(icases):
+        a, clean = ii[k], ii[len(icases) + k]
+        b = im_[k] if len(im_) == len(icases) else ""
+        res.count("interleaved:" + ("crash" if a.startswith("CRASH") else ("ok" if a.startswith("ok") else " ".join(a.split(" ")[:2]))))
+        if a.startswith("CRASH") or a.startswith("exception"):
+            res.violation("%s: the importer %s on clang output with a diagnostic line written into the AST text; model: %s" %
+                          (c["name"], "crashes" if a.startswith("CRASH") else "leaves with " + a[:60], b[:80]),
+                          dict(kind="dump", lang=c["lang"], text=c["text"], dump=c["dump"], key="crash"), concrete=True, key="crash")
+        elif a.startswith("throw") and clean.startswith("ok"):
+            res.violation("%s: a program clang accepts is not analysed: the AST text read through `2>&1` has a diagnostic inside a dump line, "
+                          "the import ends with InternalError (%s); the clean dump of the same program is imported" % (c["name"], a),
+                          dict(kind="dump", lang=c["lang"], text=c["text"], dump=c["dump"], key="not-analysed-interleaved-diagnostics"),
+                          concrete=True, key="not-analysed-interleaved-diagnostics")
+        if b and not b.startswith(("ub ", "unsupported")) and not a.startswith("CRASH"):
+            cmp_o.append("dump interleaved/%s #%d" % (c["name"], k)); cmp_a.append(a); cmp_b.append(b)
+    core.correspond(ctx, res, "import-interleaved", cmp_o, cmp_a, cmp_b, nontrivial=lambda op, out: out.startswith("throw"))
 
     # ---- P_impl on the real importer -------------------------------------------------------------------------------------
     inv_ops, inv_cases = [], []
@@ -1327,15 +1305,15 @@ def cli(ctx, res, rng, cases):
         rc0, out0, err0 = core.sh([ctx.cppcheck, "--clang=" + CLANG, "--dump", "-q", fn], cwd=wd, timeout=300)
         res.count("cli-plain-exit:%d" % rc0)
         plain_crash = rc0 < 0 or rc0 >= 128
+        plain_bailout = not os.path.exists(os.path.join(wd, fn + ".dump")) and "Processing Clang AST dump failed" in err0 + out0
         if not os.path.exists(os.path.join(wd, fn + ".dump")):
-            res.count("cli-plain-bailout:" + ("interleaved-diagnostics" if "Processing Clang AST dump failed" in err0 + out0 else "other"))
+            res.count("cli-plain-bailout:" + ("interleaved-diagnostics" if plain_bailout else "other"))
         else:
             os.remove(os.path.join(wd, fn + ".dump"))
         rc, out, err = core.sh([ctx.cppcheck, "--clang=" + wrapper, "--dump", "-q", fn], cwd=wd, timeout=300)
         res.count("cli-exit:%d" % rc)
         if plain_crash:
-            # crashes only when the diagnostics are mixed into the AST text: F35g; crashes with silent clang too: something else
-            key = "crash-interleaved-diagnostics" if 0 <= rc < 128 else "cli-crash"
+            key = "cli-crash"
             res.violation("cppcheck --clang=%s --dump terminated abnormally (rc=%d); with diagnostics silenced rc=%d" % (CLANG, rc0, rc),
                           dict(kind="program", lang=c["lang"], text=c["text"], key=key), concrete=True, key=key)
         if rc < 0 or rc >= 128:
@@ -1343,6 +1321,11 @@ def cli(ctx, res, rng, cases):
                           dict(kind="program", lang=c["lang"], text=c["text"], key="cli-crash"), concrete=True, key="cli-crash")
             continue
         dp = os.path.join(wd, fn + ".dump")
+        if plain_bailout and os.path.exists(dp):
+            res.violation("cppcheck --clang=%s reports `%s` and does not analyse a program clang accepts; with clang's diagnostics silenced the same "
+                          "program is analysed" % (CLANG, (err0 + out0).strip().split("\n")[0][:200]),
+                          dict(kind="program", lang=c["lang"], text=c["text"], key="not-analysed-interleaved-diagnostics"), concrete=True,
+                          key="not-analysed-interleaved-diagnostics")
         if not os.path.exists(dp):
             res.count("cli-no-dump")
             continue
@@ -1359,15 +1342,21 @@ def cli(ctx, res, rng, cases):
 def replay(ctx, res, rp):
     """re-run one stored program: prints the violations it still shows; returns 1 if the stored class still occurs"""
     exe = ctx.harness("c35")
-    mode = probe(exe)[0]
-    c = dict(lang=rp.get("lang", "c"), text=rp["text"], layout="replay", stress=True, features=[], mode=mode)
+    c = dict(lang=rp.get("lang", "c"), text=rp["text"], layout="replay", stress=True, features=[])
     clang_case(c)
     if not c.get("clang_ok"):
         print("replay: clang rejects the program")
         return 1
     for u in c["truth"]["uses"]:
         u.setdefault("nonodr", False)
-    o = run_robust(exe, [dump_op(c, "cur")])[0]
+    if rp.get("dump"):        # a stored AST text (interleaved diagnostics)
+        o = run_robust(exe, [dump_op(dict(lang=c["lang"], dump=rp["dump"]))])[0]
+        clean = run_robust(exe, [dump_op(c)])[0]
+        print("replay: stored AST text -> %s; clean dump of the program -> %s" % (o[:60], clean[:20]))
+        bad = o.startswith(("CRASH", "exception")) or (o.startswith("throw") and clean.startswith("ok"))
+        print("replay: stored class %r %s" % (rp.get("key"), "still occurs" if bad else "no longer occurs"))
+        return 1 if bad else 0
+    o = run_robust(exe, [dump_op(c)])[0]
     viol, stats, note = evaluate(c, o)
     hit = [v for v in viol if v[0] == rp.get("key")]
     for k, t in viol:
